@@ -78,7 +78,7 @@ func regCmd(args []string) error {
 		} else if strings.Contains(sc.Stack, "immw(") {
 			wrap = "immw"
 		}
-		if *record && wrap == "none" && strings.Contains(sc.Stack, "http") && !strings.Contains(sc.Stack, "sub(") && !strings.Contains(sc.Stack, "unify") {
+		if *record && wrap == "none" && strings.Contains(sc.Stack, "http") && !strings.Contains(sc.Stack, "sub(") && !strings.Contains(sc.Stack, "unify") && !strings.Contains(sc.Stack, "redir") {
 			env.wrapMem = func(r ociregistry.Interface) ociregistry.Interface {
 				rec = &recorder{Interface: r, cat: cat}
 				return rec
